@@ -3,8 +3,10 @@ import json
 import os
 import re
 import select
+import shutil
 import subprocess
 import sys
+import tempfile
 import time
 
 import docgen as D
@@ -201,11 +203,11 @@ def loader_main():
     sys.stdout = sys.stderr            # nothing but replies on the pipe
     out.write('ready\n')
     out.flush()
-    for line in sys.stdin:
+    tmp = os.environ.get('C17_TMPDIR') or tempfile.mkdtemp(prefix='c17_')   # owned by the parent, which removes it
+    for line in sys.stdin:                                                   # also when it has to kill this process
         req = json.loads(line)
         if req.get('sleep'):
             time.sleep(req['sleep'])
-        tmp = tempfile.mkdtemp(prefix='c17_')
         rep = {}
         t0 = time.time()
         try:
@@ -226,9 +228,13 @@ def loader_main():
                 except Exception as e:
                     rep['phys'] = ['check-crashed: %s: %s' % (type(e).__name__, e)]
         finally:
-            shutil.rmtree(tmp, ignore_errors=True)
+            try:
+                os.remove(os.path.join(tmp, 'doc.cellml'))
+            except OSError:
+                pass
         out.write(json.dumps(rep) + '\n')
         out.flush()
+    shutil.rmtree(tmp, ignore_errors=True)
 
 
 if __name__ == '__main__' and sys.argv[1:] == ['--loader']:
@@ -264,16 +270,20 @@ def _kill():
             _LOADER.wait(timeout=5)
         except Exception:
             pass
+        shutil.rmtree(getattr(_LOADER, '_tmp', '') or '/nonexistent', ignore_errors=True)
     _LOADER = None
 
 
 def _loader():
     global _LOADER
     if _LOADER is None or _LOADER.poll() is not None:
-        env = dict(os.environ, PYTHONPATH=os.path.dirname(HERE) + os.pathsep + os.environ.get('PYTHONPATH', ''))
+        tmpd = tempfile.mkdtemp(prefix='c17_')
+        env = dict(os.environ, PYTHONPATH=os.path.dirname(HERE) + os.pathsep + os.environ.get('PYTHONPATH', ''),
+                   C17_TMPDIR=tmpd)
         _LOADER = subprocess.Popen([sys.executable, os.path.abspath(__file__), '--loader'], stdin=subprocess.PIPE,
                                    stdout=subprocess.PIPE, stderr=subprocess.DEVNULL, env=env, bufsize=0)
         _LOADER._buf = b''
+        _LOADER._tmp = tmpd
         if _readline(_LOADER, 180) != b'ready':
             _kill()
             raise RuntimeError('loader subprocess did not start')
